@@ -29,7 +29,7 @@ CHECKS = {
  "C04": ("vp-conn", False, "exploration", "structure-aware mutation + panic/allocation/termination monitors",
    "One frame mutated at each position of each protocol state before and after encryption (lengths, inserted VarInts, byte substitutions, truncations, random bytes, RSA field classes) under four maximum frame sizes; monitors: panic of the handler task, largest single allocation requested while the handler is polled (counting global allocator), termination after EOF, bytes consumed after a refused length prefix. Evidence lists the state × mutation-class matrix.",
    "allocation requests are forwarded unchanged; a run that aborts the process would be inconclusive, not a violation", "DESIGN.md §5 C04"),
- "C05": ("vp-cipher", False, "exploration", "differential runtime monitor against an independent AES-128-CFB8; Miri on a reduced workload",
+ "C05": ("vp-cipher", True, "exploration", "differential runtime monitor against an independent AES-128-CFB8; Miri on a reduced workload",
    "CipherStream is driven through thousands of write/read schedules (partial accepts, Pending, chunked reads, mid-stream switch) over a plan-driven transport; bytes accepted by the transport and bytes surfaced to the reader are compared with an AES/CFB8 written from FIPS-197. Thorough additionally runs the same oracles under Miri.",
    "reference AES/CFB8 self-tested against FIPS-197 / SP 800-38A vectors and the aes crate", "DESIGN.md §5 C05"),
  "C06": ("vp-conn", True, "exploration", "grammar acceptor over decoded clientbound sequences; complete single-deviation enumeration",
@@ -38,7 +38,7 @@ CHECKS = {
  "C07": ("vp-conn", True, "exploration", "timing monitor on virtual time with inferred cadence",
    "Grid and random schedules of stage latencies, Client Information delay and echo policies under tokio's paused clock; the checker works on virtual timestamps of Keep Alive / Disconnect / Transfer packets; only the 16 s upper bound is hard-coded, period and alignment are inferred from a prompt-echo calibration run of the same schedule.",
    "instants where routing completes within 2 ms of a keep-alive tick are not judged", "DESIGN.md §5 C07"),
- "C08": ("vp-conn", False, "exploration", "trace-equivalence monitor: segmented/timed run vs unsegmented baseline",
+ "C08": ("vp-conn", True, "exploration", "trace-equivalence monitor: segmented/timed run vs unsegmented baseline",
    "For five baselines every split offset of every client frame, byte-at-a-time delivery, hostile read chunking and write acceptance, write stalls inside every clientbound frame, backend completions and keep-alive ticks landing inside half-received / half-sent frames (completion × frame × offset) and a pipelining client are executed; the observable trace (packets without Keep Alives, adapter calls, result) must equal the baseline's and the clientbound stream must decrypt and parse completely.",
    "per-connection nonces (verify token, session id, cookie timestamp, keep-alive ids) are masked", "DESIGN.md §5 C08"),
  "C09": ("vp-codec", False, "exploration", "differential runtime monitor against an independent reference codec; exhaustive VarInt sweep in thorough; Miri sample",
@@ -62,10 +62,10 @@ CHECKS = {
  "C15": ("vp-net", True, "exploration", "real-TCP admission monitor with per-effective-IP reference counters",
    "Sequences of connections through three loopback peers announcing IPv4/IPv6 sources by PROXY v1/v2 (also split, LOCAL, missing, malformed, disabled version) against a Listener with limiter; served/refused is predicted from per-effective-IP counters, recorded adapter arguments and issued cookies are compared with the announced source; a concurrent burst must serve exactly `limit`.",
    "the limiter window never rolls during a run", "DESIGN.md §5 C15"),
- "C16": ("vp-net", False, "fault_enumeration", "stall-point enumeration with a latency probe over real TCP",
+ "C16": ("vp-net", True, "fault_enumeration", "stall-point enumeration with a latency probe over real TCP",
    "Stallers are placed at each enumerated stall point (before/inside/after the PROXY header, mid-frame in each phase, unanswered Keep Alives) and held for 12 s; a well-behaved probe must be served within 3 s.",
    "scheduler lateness above half the slack makes the verdict inconclusive", "DESIGN.md §5 C16"),
- "C17": ("vp-net", False, "fault_enumeration", "cancel-instant enumeration over real TCP with server-side timestamps",
+ "C17": ("vp-net", True, "fault_enumeration", "cancel-instant enumeration over real TCP with server-side timestamps",
    "In-flight connections at enumerated stages, cancellation at random and adversarial instants; connections started ≥ 50 ms after cancel() returned must not be served, cooperating clients must still be transferred, and Listener::listen must not return before the last in-flight connection finished nor later than timeout + 5 s.",
    "connections racing the signal within 50 ms are not judged", "DESIGN.md §5 C17"),
  "C18": ("vp-route", True, "exploration", "differential runtime monitor against an independent rule evaluator",
